@@ -6,7 +6,7 @@
      data_inputs/cell_modifier.py  format_for_mcnp_input, _is_worth_printing, _collect_new_values,
                              in_cell_block, set_in_cell_block, link_to_problem, _check_redundant_definitions
                                                                 -> [prints], [worth], [link_flags], [redundant]
-     data_inputs/importance.py   cell level: __getitem__/__setitem__/__delitem__, merge,
+     data_inputs/importance.py   cell level: __getitem__/__setitem__ (with _unshare_tree)/__delitem__, merge,
                              _generate_default_cell_tree, _format_tree (with its in-place classifier edits);
                              data level: push_to_cells, _collect_new_values (one vector per MODE particle)
      data_inputs/volume.py, universe_input.py, lattice_input.py, fill.py
@@ -104,13 +104,29 @@ Fixpoint iupd (q : particle) (f : itree -> itree) (g : list igroup) : list igrou
   | (ks, t) :: r => if mem q ks then (ks, f t) :: r else (ks, t) :: iupd q f r
   end.
 
-(* __setitem__ after its checks; [linked]: the cell-level Importance has _problem *)
-Definition iset (linked : bool) (mode : list particle) (q : particle) (v : Z) (g : list igroup) : list igroup :=
-  if mem q (ikeys g) then iupd q (fun t => mkT v (t_parts t) (t_order t)) g
-  else g ++ [([q], mkT v (if linked then mode else [q]) [q])].   (* _generate_default_cell_tree(particle) *)
-
 Definition remove_p (q : particle) (l : list particle) : list particle :=
   filter (fun o => negb (Nat.eqb o q)) l.
+
+(* __setitem__ on a particle that has a tree: _unshare_tree splits the particle off a tree it shares with other
+   particles (a deep copy labelled with this particle only, placed directly before the tree it came from, whose
+   classifier loses the particle), then the value is set *)
+Fixpoint iset_existing (q : particle) (v : Z) (g : list igroup) : list igroup :=
+  match g with
+  | [] => []
+  | (ks, t) :: r =>
+      if mem q ks then
+        match remove_p q ks with
+        | [] => (ks, mkT v (t_parts t) (t_order t)) :: r
+        | ks' => ([q], mkT v [q] [q])
+                 :: (ks', mkT (t_val t) (remove_p q (t_parts t)) (remove_p q (t_order t))) :: r
+        end
+      else (ks, t) :: iset_existing q v r
+  end.
+
+(* __setitem__ after its checks; [linked]: the cell-level Importance has _problem *)
+Definition iset (linked : bool) (mode : list particle) (q : particle) (v : Z) (g : list igroup) : list igroup :=
+  if mem q (ikeys g) then iset_existing q v g
+  else g ++ [([q], mkT v (if linked then mode else [q]) [q])].   (* _generate_default_cell_tree(particle) *)
 
 (* __delitem__ (q is a key) *)
 Fixpoint idel (q : particle) (g : list igroup) : list igroup :=
